@@ -443,7 +443,7 @@ def guided(seed, n_ops, profile, welcome_error=None, finish_run=False):
                     if ph3 == "pake":
                         from spake2 import SPAKE2_Symmetric
                         kind = rng.choice(["stranger", "stranger", "empty", "nonjson", "list", "int", "nonhex", "short",
-                                           "zero33", "notingroup", "offcurve", "random32", "reflect"])
+                                           "zero33", "notingroup", "offcurve", "random32", "deepjson", "reflect"])
                         if kind == "stranger":
                             el = SPAKE2_Symmetric(b"9-some-stranger", idSymmetric=b"x").start()
                             body3 = dict_to_bytes({"pake_v1": el.hex()})
@@ -456,6 +456,7 @@ def guided(seed, n_ops, profile, welcome_error=None, finish_run=False):
                                      "zero33": dict_to_bytes({"pake_v1": "00" * 33}),
                                      "notingroup": dict_to_bytes({"pake_v1": "53" + "ff" * 32}),
                                      "offcurve": dict_to_bytes({"pake_v1": "53" + "02" + "00" * 31}),
+                                     "deepjson": b"[" * 5000,
                                      "random32": dict_to_bytes({"pake_v1": "53" + bytes(rng.randrange(256) for _ in range(32)).hex()})}[kind]
                     else:
                         body3 = bytes(rng.randrange(256) for _ in range(rng.choice([0, 24, 40, 60])))
